@@ -225,6 +225,26 @@ func (e *Env) eval(x Expr) Val {
 			}
 			return strVal("(str.substr " + s + " " + lo + " (- " + hi + " " + lo + "))")
 		}
+		if strings.HasPrefix(b.S, "(Slice ") {
+			// x[lo:hi] of a non-byte slice, built as the executor builds it (a fresh array shifted by lo)
+			es := strings.TrimSuffix(strings.TrimPrefix(b.S, "(Slice "), ")")
+			lo, hi := "0", "(s_len "+b.T+")"
+			if n.Lo != nil {
+				lo = e.eval(n.Lo).T
+			}
+			if n.Hi != nil {
+				hi = e.eval(n.Hi).T
+			}
+			if lo == "0" {
+				return Val{S: b.S, T: "(mkS false " + hi + " (s_arr " + b.T + "))", Typ: b.Typ}
+			}
+			if strings.Contains(b.T+lo+hi, "qv!") {
+				return e.fail("cannot slice %s under a quantifier", n.X.String())
+			}
+			na := fc.B.Fresh("subarr", "(Array Int "+es+")")
+			fc.B.Assert("(forall ((i Int)) (! (= (select " + na + " i) (select (s_arr " + b.T + ") (+ i " + lo + "))) :pattern ((select " + na + " i))))")
+			return Val{S: b.S, T: "(mkS false (- " + hi + " " + lo + ") " + na + ")", Typ: b.Typ}
+		}
 		return e.fail("cannot slice %s", n.X.String())
 	case *EUnary:
 		if n.Op == "*" {
@@ -764,6 +784,11 @@ func (e *Env) callExpr(n *ECall) Val {
 				"(= (select (kv_has (select (w_kv " + w1 + ") qs!s)) qs!k) (select (kv_has (select (w_kv " + w0 + ") qs!s)) qs!k)) " +
 				"(= (select (kv_val (select (w_kv " + w1 + ") qs!s)) qs!k) (select (kv_val (select (w_kv " + w0 + ") qs!s)) qs!k)))) " +
 				":pattern ((select (kv_has (select (w_kv " + w1 + ") qs!s)) qs!k)) :pattern ((select (kv_val (select (w_kv " + w1 + ") qs!s)) qs!k)))))")
+		case "sameStoresAndLedger":
+			// sameStoresAndLedger(w0, w1): every module store and the bank ledger are equal (only auxiliary state,
+			// e.g. another module's metadata, may differ)
+			w0, w1 := argv(0).T, argv(1).T
+			return boolVal("(and (= (w_led " + w1 + ") (w_led " + w0 + ")) (= (w_kv " + w1 + ") (w_kv " + w0 + ")))")
 		case "onlyKeyChanged":
 			// onlyKeyChanged(w0, w1, k): world w1 differs from w0 at most at key k (of any module store)
 			w0, w1, k := argv(0).T, argv(1).T, str(2)
